@@ -117,7 +117,7 @@ class PropBase:
             if d:
                 d.update(case=cid, case_cmds=acmds)
                 disagreements.append(d)
-            for v in self.oracle(cid, cmds, tr) or []:
+            for v in (self.oracle(cid, cmds, tr) or []) + self.no_answer(cid, cmds, tr):
                 v.setdefault("case", cid)
                 v.setdefault("case_cmds", cmds)
                 violations.append(v)
@@ -141,7 +141,7 @@ class PropBase:
             cases = self.generate(n=self.ncases() * 2, tag="s%d_" % rnd)
             real = mrl.run_real(cases, deadline_ms=self.deadline_ms())
             for cid, cmds in cases:
-                for v in self.oracle(cid, cmds, real.get(cid, [])) or []:
+                for v in (self.oracle(cid, cmds, real.get(cid, [])) or []) + self.no_answer(cid, cmds, real.get(cid, [])):
                     v.setdefault("case", cid)
                     v.setdefault("case_cmds", cmds)
                     out.append(v)
@@ -155,6 +155,21 @@ class PropBase:
         return any(x.get("shape") == v.get("shape") for x in vs)
 
     def oracle(self, cid, cmds, tr):
+        return []
+
+    def no_answer(self, cid, cmds, tr):
+        """every property presupposes that the crate answers: a script on which the real crate hangs, or that kills
+        the driver, is a failing input for whichever check ran it (the oracles themselves only look at the
+        commands that were answered)"""
+        if getattr(self, "judges_hang_itself", False):
+            return []
+        for i, c in enumerate(tr):
+            out = outcome_of(c) or ""
+            if c["name"] == "driver-error" or out.endswith("err=Hang"):
+                return [{"msg": "cmd %d `%s`: the crate did not answer (%s)" % (i, cmds[i] if i < len(cmds) else c["name"], out or c["name"]),
+                         "shape": "no-answer", "shrinkable": False}]
+        if len(tr) < len(cmds):
+            return [{"msg": "the transcript stops after %d of %d commands" % (len(tr), len(cmds)), "shape": "no-answer", "shrinkable": False}]
         return []
 
 
@@ -248,10 +263,11 @@ class C05(PropBase):
             c = tr[i]
             out = outcome_of(c)
             op = toks[0]
-            if out and "err=Panic" in out and cid.endswith("u64max_trunc") and op == "truncate":
+            pan = next((l[4:] for l in c["lines"] if l.startswith("pan ")), "")
+            if out and "err=Panic" in out and op == "truncate" and toks[2] == str(2 ** 64 - 1) and "overflow" in pan and "mem/queue.rs" in pan:
                 vs.append({"msg": "cmd %d `%s`: the crate panics (debug profile; release builds wrap and evict nothing)" % (i, cmd), "shape": "u64-max-position", "shrinkable": False})
                 return vs
-            if out and "err=Panic" in out and cid.endswith("longname") and op == "create":
+            if out and "err=Panic" in out and op == "create" and len(name_bytes(toks[1])) >= 65536 and "record.rs" in pan:
                 vs.append({"msg": "cmd %d `create <65536-byte name>`: the crate panics (assert in MultiPlexedRecord::serialize) instead of returning an error" % i, "shape": "name-too-long", "shrinkable": False})
                 return vs
             if op in ("create", "delete", "append", "truncate"):
